@@ -404,6 +404,7 @@ Section SubSlot.
     let k := stask_of p t in let r := s_res k in
     bs <> [] /\ NoDup (map fst bs) /\
     (forall s x, In (s, x) bs ->
+       (s <= sp_upper p)%nat /\
        sr_work (sres_of p r) s = true /\ 0 < x /\ x <= G /\ tent t (cells st r s) = [(t, x)] /\
        (Z.of_nat s * sp_G p <= e)%Z /\ (f < (Z.of_nat s + 1) * sp_G p)%Z) /\
     (forall r' s', (r' <> r \/ ~ In s' (map fst bs)) -> tent t (cells st r' s') = []) /\
@@ -427,7 +428,7 @@ Section SubSlot.
     intros He Hc [G1 G2 G3 G4 G5]. constructor; try assumption.
     - intros Hm. destruct (G3 Hm) as (bs & B1 & B2 & B3 & B4 & B5 & B6). exists bs. unfold Booked. cbn zeta.
       split; [exact B1|]. split; [exact B2|]. split; [|split; [|split; assumption]].
-      + intros s x Hin. destruct (B3 s x Hin) as (A1 & A2 & A3 & A4 & A5 & A6). rewrite Hc. repeat split; assumption.
+      + intros s x Hin. destruct (B3 s x Hin) as (A0 & A1 & A2 & A3 & A4 & A5 & A6). rewrite Hc. repeat split; assumption.
       + intros r' s' H. rewrite Hc. now apply B4.
     - intros Hp. destruct (G4 Hp) as [A B]. split; [exact A|]. intros d Hd. destruct (B d Hd) as (s' & e' & D1 & D2).
       exists s', e'. split; [eapply sdates_stable; eassumption|exact D2].
@@ -570,6 +571,7 @@ Section SubSlot.
              ++ intros _. exists ((s1, x1) :: rest'). unfold Booked. cbn zeta. fold r. cbn [splace cells].
                 split; [discriminate|]. split; [exact B3|]. split; [|split; [|split]].
                 ** intros s x Hsx. destruct (B2 s x Hsx) as (A1 & A2 & A3 & A4 & A5 & A6 & A7).
+                   split; [apply Z.ltb_ge in Eh2; lia|].
                    split; [exact A3|]. split; [exact A4|]. split; [exact A5|]. split; [rewrite A6, (J3 t Hin r s); reflexivity|].
                    split; [exact A7|]. rewrite Hf. nia.
                 ** intros r' s' Hrs. rewrite (B4 r' s' Hrs). now apply J3.
